@@ -109,6 +109,17 @@ func (queue *PacketQueue) DiscardUntilCurrentPosition() {
 	}
 }
 
+// discardBeforeCurrentPacket discards all packets before the packet
+// the position points to. In contrast to DiscardUntilCurrentPosition
+// the current packet is kept even if it is exhausted.
+func (queue *PacketQueue) discardBeforeCurrentPacket() {
+	queue.Lock()
+	defer queue.Unlock()
+
+	queue.queue = queue.queue[queue.indexPacket:]
+	queue.indexPacket = 0
+}
+
 // AllPacketsConsumend returns true if all packets have been consumed.
 func (queue *PacketQueue) AllPacketsConsumed() bool {
 	if len(queue.queue) == 0 && queue.indexPacket == 0 && queue.indexData == 0 {
